@@ -316,7 +316,9 @@ class Ref8(c07.Ref):
                     pref, post = sub(self.full(r1), 0, o1), sub(self.full(r2), o2, -1)
             else:
                 pref, post = '', '\n'       # the empty buffer: the input ends the (new) first line
-            rep, post2, _ = led_input(pref, post, text, self.regs.get)
+            self.r = r1
+            rep, post2, nls = led_input(pref, post, text, self.regs.get)
+            self.nextline(nls)                  # every line added scrolls the window as it is typed
             self.edit(rep, r1, r2 + 1 if self.L or True else 0)
             row = rep.count('\n') + 1
             self.r = r1 + row - 1 - 1
@@ -364,6 +366,13 @@ class Ref8(c07.Ref):
         self.reindex()
         self.finish(1)
 
+    def nextline(self, n):
+        """vi_nextline while typing: the cursor row goes down; at the bottom row of the window the window scrolls with it"""
+        for _ in range(n):
+            if self.r == self.top + self.rows - 1:
+                self.top += 1
+            self.r += 1
+
     def input_off(self, rep, post):
         """vi_input: offset of the last typed character in the last line of the replacement."""
         if len(rep) < len(post):
@@ -384,7 +393,7 @@ class Ref8(c07.Ref):
         self.o = self.noeol(self.r, self.o) if have else 0
         nextlines = 0
         if key == 'o':
-            self.r += 1
+            self.nextline(1)
         off = self.o if key in 'iI' else self.o + 1 if key in 'aA' else 0
         if ln is not None and ln[0] == '\n':
             off = 0
@@ -396,7 +405,7 @@ class Ref8(c07.Ref):
                 k += 1
             pref, post = (ln[:k] if ln is not None else ''), '\n'
         rep, post2, nls = led_input(pref, post, text, self.regs.get)
-        self.r += nls
+        self.nextline(nls)
         if key in 'oO' and not L:
             self.edit('\n', 0, 0)
         row = rep.count('\n') + 1 - 1
@@ -899,12 +908,16 @@ def gen_indent_prog(rng, text):
 
 
 def gen_case_text(rng):
+    """U+200C is replaced by U+200B: once an edit brings a ZWNJ to the start of a line, conf.h's dircontexts make that line
+    right-to-left (h l and the columns reverse), which is outside the left-to-right scope of the motion model and of the reference"""
     t = rng.below(40)
     if t < 6:
-        return c07.gen_pair_text(rng)
-    if t < 8:
-        return gen_indent_text(rng)
-    return c07.gen_text(rng, 6)
+        text = c07.gen_pair_text(rng)
+    elif t < 8:
+        text = gen_indent_text(rng)
+    else:
+        text = c07.gen_text(rng, 6)
+    return text.replace('\u200c', '\u200b')
 
 
 def gen_prog(rng, text):
